@@ -94,6 +94,7 @@ type FnExec struct {
 	idxTerms []Term
 	sliceOffs []Term
 	idxSeen  map[Term]bool
+	havocPtrs []havocPtr // values written by a havoc whose addresses still have to be placed below the allocation frontier
 	freshObjs []*freshObj // objects allocated for this function (fresh results) whose address has not escaped
 	derived map[Term]Term // field/element address -> base address it was derived from
 	oblNames map[string]int
@@ -1698,9 +1699,12 @@ func (x *FnExec) havocLoop(h *ssa.BasicBlock, st *State, ls *LoopSpec, pre *Stat
 			}
 			return Val{}
 		})
+		x.havocPtrs = nil
 		for _, m := range ls.Modifies {
 			x.havocLoc(env, st, m)
 		}
+		// addresses the iterations left in the modified locations refer to allocated memory
+		x.boundHavocPtrs(st.alloc)
 		return
 	}
 	// default: the heaps the loop body can write are unknown after the cut: the heaps of the
@@ -1804,6 +1808,23 @@ func (x *FnExec) havocLoop(h *ssa.BasicBlock, st *State, ls *LoopSpec, pre *Stat
 }
 
 // havocLoc replaces the content of one location by an unknown value in st.
+// havocPtr: a value stored by havocLoc; whatever addresses it holds refer to memory that exists
+// once the callee (or the loop iteration) that wrote it is done, i.e. below the frontier then.
+type havocPtr struct {
+	v Val
+	t types.Type
+}
+
+// boundHavocPtrs places the addresses written by the havocs since the last call below end.
+func (x *FnExec) boundHavocPtrs(end Term) {
+	for _, h := range x.havocPtrs {
+		for _, c := range x.existsBelow(h.v, h.t, end) {
+			x.ctx.Assert(c)
+		}
+	}
+	x.havocPtrs = nil
+}
+
 func (x *FnExec) havocLoc(env *Env, st *State, m CExpr) {
 	if ix, ok := m.(*CIndex); ok {
 		if id, ok := ix.X.(*CIdent); ok && id.Name == "Big" {
@@ -1855,7 +1876,9 @@ func (x *FnExec) havocLoc(env *Env, st *State, m CExpr) {
 							off := x.mem.FieldOffset(p.Elem(), i)
 							addr := Add(base.V.T, Lit(int64(off)))
 							ft := stt.Field(i).Type()
-							x.storeL(st, addr, ft, x.freshVal("hv", ft, true), x.mem.FieldLeaves(p.Elem(), i))
+							hv := x.freshVal("hv", ft, true)
+							x.havocPtrs = append(x.havocPtrs, havocPtr{hv, ft})
+							x.storeL(st, addr, ft, hv, x.mem.FieldLeaves(p.Elem(), i))
 							return
 						}
 					}
@@ -1866,7 +1889,9 @@ func (x *FnExec) havocLoc(env *Env, st *State, m CExpr) {
 		if m.Fn == "deref" {
 			base := env.Eval(m.Args[0])
 			if p, ok := base.T.Underlying().(*types.Pointer); ok {
-				x.store(st, base.V.T, p.Elem(), x.freshVal("hv", p.Elem(), true))
+				hv := x.freshVal("hv", p.Elem(), true)
+				x.havocPtrs = append(x.havocPtrs, havocPtr{hv, p.Elem()})
+				x.store(st, base.V.T, p.Elem(), hv)
 				return
 			}
 		}
